@@ -52,6 +52,9 @@ def worker(args):
             ctx.extra["reach_functions"] = {k: int(v) for k, v in hit.items()}
             ctx.extra["fp_events"] = harness.fp_report()["events"]
             ctx.extra["fp_sites"] = harness.fp_report()["repo_sites_first40"]
+            from .gen import config as _gc
+            if _gc.LAYOUT_COUNTS:
+                ctx.extra["snapshot_layouts"] = dict(_gc.LAYOUT_COUNTS)   # snapshots handed over per in-memory representation
         except Exception:  # noqa: BLE001
             traceback.print_exc()
         interpose.uninstall()
